@@ -324,15 +324,52 @@ func (vc *VC) sortSearch(st *State, n Val, f Val, pos token.Pos) Val {
 	if f.K != KFunc {
 		panic(unsupported("sort.Search with a predicate that is not a closure literal"))
 	}
+	ord := vc.count("search")
 	i := vc.fresh("search", "Int")
 	st.assume(vc, And(Le("0", i), Le(i, n.S)))
 	// safety obligations of the predicate body, for an arbitrary index in range
 	j := vc.fresh("sj", "Int")
 	guard := st.clone()
 	guard.assume(vc, And(Le("0", j), Lt(j, n.S)))
-	vc.inline(guard, f.Fn, f.Fr, []Val{IntV(j, tInt)}, types.Typ[types.Bool])
+	rj := vc.inline(guard, f.Fn, f.Fr, []Val{IntV(j, tInt)}, types.Typ[types.Bool])
+	vc.searchRes = append(vc.searchRes, i)
+	var cl *Clause
+	if vc.depth == 0 && vc.Con != nil {
+		for _, c := range vc.Con.Of("search") {
+			if c.Index == ord {
+				cl = c
+			}
+		}
+	}
+	if cl != nil {
+		// the predicate is given as a spec formula P(j): (1) it is what the closure computes, (2) it is monotone;
+		// then sort.Search returns the lower bound: P is false below i and true from i on.
+		env := vc.funcEnvAt(guard, pos)
+		evalP := func(e *Env, at string) string {
+			vc.specDepth++
+			defer func() { vc.specDepth-- }()
+			return e.bind(cl.Name, IntV(at, tInt)).evalBool(cl.Text)
+		}
+		pj := evalP(env, j)
+		vc.addObl("search", fmt.Sprintf("search-eq#%d", ord), guard, Eq(rj.S, pj), pos, cl.Tags, "closure of sort.Search computes "+cl.Text)
+		a, b := vc.fresh("sa", "Int"), vc.fresh("sb", "Int")
+		vc.searchRes = append(vc.searchRes, a, b)
+		mono := st.clone()
+		menv := vc.funcEnvAt(mono, pos)
+		mono.assume(vc, And(Le("0", a), Lt(a, b), Lt(b, n.S), evalP(menv, a)))
+		vc.addObl("search", fmt.Sprintf("search-mono#%d", ord), mono, evalP(menv, b), pos, cl.Tags, "predicate of sort.Search is monotone: "+cl.Text)
+		senv := vc.funcEnvAt(st, pos)
+		senv.vars["searchres"] = IntV(i, tInt)
+		senv.vars["searchlen"] = IntV(n.S, tInt)
+		vc.specDepth++
+		lo := senv.evalBool(fmt.Sprintf("forall(%s, 0, searchres, !(%s))", cl.Name, cl.Text))
+		hi := senv.evalBool(fmt.Sprintf("forall(%s, searchres, searchlen, %s)", cl.Name, cl.Text))
+		vc.specDepth--
+		st.assume(vc, And(lo, hi))
+		return IntV(i, tInt)
+	}
 	// what binary search guarantees for ANY pure predicate: pred(i-1) is false (i>0), pred(i) is true (i<n).
-	// "i is the lower bound" additionally needs monotonicity, which the caller's contract has to supply.
+	// "i is the lower bound" additionally needs monotonicity (a 'search' clause in the contract supplies it).
 	nobl := len(vc.obls)
 	lo := st.clone()
 	lo.assume(vc, Gt(i, "0"))
@@ -343,7 +380,6 @@ func (vc *VC) sortSearch(st *State, n Val, f Val, pos token.Pos) Val {
 	vc.obls = vc.obls[:nobl]
 	st.assume(vc, Imp(lo.pc, Not(r1.S)))
 	st.assume(vc, Imp(hi.pc, r2.S))
-	vc.searchRes = append(vc.searchRes, i)
 	return IntV(i, tInt)
 }
 
